@@ -9,7 +9,7 @@ CONSTANTS
   RegClasses <- None
   RegBehs <- None
   MaxRegs = 0
-  RaiseClasses <- C3Raise
+  RaiseClasses <- C3RaiseQ
   RenderClasses <- C3Render
   Mro <- MCMro
   StatusOf <- MCStatus
